@@ -229,34 +229,38 @@ Definition flush_queue (q : list diag) (s : istate) : list diag :=
    it returns them with the diagnostics appended to l.Errors *)
 Definition rres := (istate * list diag * list diag * list diag)%type.
 
+Definition kids_with (runf : node -> path -> istate -> list diag -> list diag -> rres) :=
+  fix go (ks : list node) (p : path) (i : nat) (s : istate) (qv qp : list diag) {struct ks} : rres :=
+    match ks with
+    | [] => (s, qv, qp, [])
+    | k :: ks' =>
+        let '(s', qv', qp', o') := runf k (p ++ [i]) s qv qp in
+        let '(s'', qv'', qp'', o'') := go ks' p (S i) s' qv' qp' in
+        (s'', qv'', qp'', o' ++ o'')
+    end.
+
+(* what happens between the setup and the teardown of a node.  The local-variable table
+   (ctx.Variables["var"]) is deleted by Restore() after every subroutine, so a subroutine starts
+   with an empty table: a flush node gives its children a fresh subroutine-level queue, reports
+   it when they are done, and hands the incoming queue on untouched. *)
+Definition run_inner (runf : node -> path -> istate -> list diag -> list diag -> rres)
+    (fl : bool) (pre lsub lprog : list rule) (kids : list node)
+    (p : path) (s1 : istate) (qv qp : list diag) : rres :=
+  let o1 := emit p pre s1 in
+  let '(s2, qv2, qp2, o2) := kids_with runf kids p 0 s1 (if fl then [] else qv) qp in
+  let o3 := if fl then flush_queue qv2 s2 else [] in
+  let qv3 := (if fl then qv else qv2) ++ emit p lsub s2 in
+  let qp3 := qp2 ++ emit p lprog s2 in
+  (s2, qv3, qp3, o1 ++ o2 ++ o3).
+
 Fixpoint run (n : node) (p : path) (s : istate) (qv qp : list diag) {struct n} : rres :=
   match n with
   | Node w m fl pre lsub lprog kids =>
-      let s1 := setup w m s in
-      let o1 := emit p pre s1 in
-      let '(s2, qv2, qp2, o2) :=
-        (fix go (ks : list node) (i : nat) (s : istate) (qv qp : list diag) {struct ks} : rres :=
-           match ks with
-           | [] => (s, qv, qp, [])
-           | k :: ks' =>
-               let '(s', qv', qp', o') := run k (p ++ [i]) s qv qp in
-               let '(s'', qv'', qp'', o'') := go ks' (S i) s' qv' qp' in
-               (s'', qv'', qp'', o' ++ o'')
-           end) kids 0 s1 qv qp in
-      let o3 := if fl then flush_queue qv2 s2 else [] in
-      let qv3 := (if fl then [] else qv2) ++ emit p lsub s2 in
-      let qp3 := qp2 ++ emit p lprog s2 in
-      (teardown w m s2, qv3, qp3, o1 ++ o2 ++ o3)
+      let '(s2, qv3, qp3, o) := run_inner run fl pre lsub lprog kids p (setup w m s) qv qp in
+      (teardown w m s2, qv3, qp3, o)
   end.
 
-Fixpoint run_kids (ks : list node) (p : path) (i : nat) (s : istate) (qv qp : list diag) : rres :=
-  match ks with
-  | [] => (s, qv, qp, [])
-  | k :: ks' =>
-      let '(s', qv', qp', o') := run k (p ++ [i]) s qv qp in
-      let '(s'', qv'', qp'', o'') := run_kids ks' p (S i) s' qv' qp' in
-      (s'', qv'', qp'', o' ++ o'')
-  end.
+Definition run_kids := kids_with run.
 
 (* lintVCL + the lintUnused* passes of Linter.Lint *)
 Definition report (t : list node) : list diag :=
